@@ -32,3 +32,26 @@ def bfs(out, label, args, threads=16, groups_per_chunk=12, stall_s=30):
                     out.sample(dict(pre=g["pre"], step=s))
                     break
     return summary
+
+
+def hist(out, label, mode, args, nworkers=12, recs_per_chunk=4, stall_s=30, home="/h", route="direct"):
+    """Histories (chain records) on the real Memfs, judged step by step by Trace_Vfs."""
+    vlib.build("hist")
+    d = sub("hist-" + label)
+    pe = os.path.join(d, "penv.json")
+    json.dump(dict(vars=[dict(n=list("HOME"), v=list(home))]), open(pe, "w"))
+    try:
+        files = vlib.run_workers("hist", ["--mode", mode, "--route", route] + list(args), nworkers, d, label, stall_s=stall_s, env={"HOME": home}, clean_env=True)
+    except Stall as s:
+        vlib.stall_violation(out, s, "hist:" + label)
+        return []
+    chunks = vlib.split_chunks(files, d, label + "c", recs_per_chunk)
+    checked, classes = vlib.tlc_validate("Trace_Vfs", chunks, extra_env=dict(PENV=pe))
+    out.absorb("Trace_Vfs", checked, classes, label=label, grouped=True)
+    out.cov["histories"] = out.cov.get("histories", 0) + vlib.count_lines(files)
+    if files:
+        r = vlib.read_line(files[0], 1)
+        if r:
+            g = json.loads(r)
+            out.sample(dict(history_prefix=[s["c"]["op"] + ":" + "".join(s["c"]["a"]) for s in g["steps"][:12]]))
+    return files
